@@ -100,7 +100,12 @@ def worker(slot, q, lock):
             if rcb != 0: res = 'does-not-compile'
             else:
                 rc1, o1 = sh('cargo test --offline', cwd=repo, env=env)
-                if rc1 != 0: res = 'killed-by-pinned-suite'
+                if rc1 != 0 and 'test result: FAILED' not in o1:
+                    # not a failing test: a build hiccup under load; try once more
+                    rc1, o1 = sh('cargo test --offline', cwd=repo, env=env)
+                if rc1 != 0:
+                    res = 'killed-by-pinned-suite'
+                    c['suite_tail'] = '\n'.join(o1.strip().split('\n')[-6:])
                 else:
                     rc2, o2 = sh('cargo test --offline --all-features --lib', cwd=repo, env=env)
                     if rc2 != 0: res = 'killed-by-lib-tests'
